@@ -23,6 +23,8 @@ from .irmodel import World, OpRecorder, Call
 
 CL = "C05: 'whenever the rule applies to a model, the rewritten model yields the same outputs as before for all inputs (same element type, same shape, equal values)'"
 CLS = "C05: 'A rule whose algebraic side-condition cannot be established from the model itself ... value only approximately equal ... does not fire'"
+CLG = ("C05: 'yields the same outputs as before for all inputs' / C04: 'initializers that are also graph inputs - defaults the caller may override - "
+       "are never folded into constants' — the bound of a graph input with a default is not a constant")
 RC = "onnxscript/rewriter/rules/common/"
 
 
@@ -255,12 +257,16 @@ def s_min_max(ctx, which):
            "FuseMaxMinToClip": ("Max", "Min"), "FuseMinMaxToClip": ("Min", "Max")}[which]
     shapes = [(), (1,), (1, 1), (3,)]
 
+    overridable = []
+
     def mk(tag, op_type):
         k = 1 + ctx.choose(2, f"constants of {tag}")
         cs = []
         for j in range(k):
             shp = shapes[ctx.choose(len(shapes), f"shape of {tag}{j}")]
-            cs.append(const_input(I, W, N, f"{tag}{j}", shp))
+            gi = (tag == "c" and j == 0) and ctx.choose(2, "first constant is an initializer that is also a graph input") == 1
+            overridable.append(gi)
+            cs.append(const_input(I, W, N, f"{tag}{j}", shp, graph_input=gi))
         n = W.node(op_type, [x] + cs)
         return n, cs
     n1, c1 = mk("c", ops[0])
@@ -279,6 +285,9 @@ def s_min_max(ctx, which):
     chk = I.call(I.getattr(rule, "check"), [None, o1, o2], {})
     if not I.truth(chk):
         ctx.cover(f"{which}.check_failed")
+        return
+    ctx.check(f"C05.rules.{which}.does_not_fire_on_an_overridable_initializer", not any(overridable), CLG)
+    if any(overridable):
         return
     op = OpRec()
     r = I.call(I.getattr(rule, "rewrite"), [op, x, o1, o2], {})
@@ -334,6 +343,43 @@ def s_noop_constants(_ctx):
     return {"obligations": agg.obs, "paths": n, "covered": [f"pattern_constants={n}"], "notes": [], "functions": []}
 
 
+def s_pattern_constant_overridable(ctx):
+    """A numeric literal in a pattern (x + 0, x * 1, ...) must not match a value that is an initializer AND a graph
+    input: the caller may feed another value (real SimplePatternMatcher._match_constant)."""
+    import numpy as np
+    import onnx_ir as ir
+    from onnxscript.rewriter import _matcher, _pattern_ir
+    I = Interp(ctx)
+    self = SObj(_matcher.SimplePatternMatcher, "matcher")
+
+    def fail(*a, **k):
+        raise AssertionError
+    I.models[fail] = lambda interp, *a, **k: False
+    self.fields["fail"] = fail
+    pc = SObj(_pattern_ir.Constant, "constpattern")
+    as_list = ctx.choose(2, "pattern constant is a list") == 1
+    pc.fields.update(_value=([0.0] if as_list else 0.0), value=([0.0] if as_list else 0.0), _rel_tol=0.0, _abs_tol=0.0)
+    arr = np.zeros((1,) if as_list else (), dtype=np.float32)
+    tensor = SObj(ir.Tensor, "tensor")
+
+    def numpy_():
+        raise AssertionError
+    I.models[numpy_] = lambda interp: arr
+    tensor.fields["numpy"] = numpy_
+    value = SObj(ir.Value, "value")
+    gi = ctx.choose(2, "value is also a graph input") == 1
+
+    def f_gi():
+        raise AssertionError
+    I.models[f_gi] = lambda interp: gi
+    value.fields.update(const_value=tensor, name="v", is_graph_input=f_gi)
+    r = I.run_closure(I.closure_of(_matcher.SimplePatternMatcher._match_constant), [self, pc, value], {})
+    if gi:
+        ctx.check("C05.rules.pattern_constant.not_matched_by_an_overridable_initializer", r is False, CLG)
+    else:
+        ctx.check("C05.rules.pattern_constant.matched_by_a_true_constant_of_that_value", r is True, CL)
+
+
 def _mk(fn, *a):
     def run(ctx):
         return fn(ctx, *a)
@@ -358,6 +404,7 @@ SCENARIOS = [
              trusted=T1, assumptions=A1, max_paths=20000)
     for w in ("FuseSuccessiveMin", "FuseSuccessiveMax", "FuseMaxMinToClip", "FuseMinMaxToClip")
 ] + [
+    Scenario("C05.rules.pattern_constant.overridable", s_pattern_constant_overridable, [("onnxscript/rewriter/_matcher.py", "SimplePatternMatcher._match_constant")]),
     Scenario("C05.rules.no_op.constants", s_noop_constants, kind="evaluation",
              trusted=["_matcher._match_constant semantics (C06.matcher.match_constant)"]),
 ]
